@@ -430,6 +430,10 @@ pub fn vec_last_push<T>(v: &mut Vec<Vec<T>>, x: T)
     v.push(last);
 }
 
+/// R12 helper: `x.into()` where the target is `Option<X>` (std: `impl<T> From<T> for Option<T>`)
+pub trait IntoSome: Sized { fn into_some(self) -> (r: Option<Self>) ensures r == Some(self); }
+impl IntoSome for TokenStream { fn into_some(self) -> (r: Option<Self>) { Some(self) } }
+
 /// R11: `format!(..)` in error paths: value irrelevant
 #[verifier::external_body]
 pub fn opaque_string() -> String { unimplemented!() }
